@@ -115,7 +115,8 @@ Records1(r, ph) ==
                                          s \in (IF HaveKeys(r, ph) THEN S ELSE {"peer"}) }
   \cup { Rec(c, "e1-replay", s, -1, "") : c \in {x \in {"AppData", "Handshake"} :
                                                     \/ x = "AppData" /\ GenuineApp(r, ph)
-                                                    \/ x = "Handshake" /\ ph \in {"Connected", "Closed"}},
+                                                    \* (the Finished has been processed: otherwise it is not a replay)
+                                                    \/ x = "Handshake" /\ ph \in {"Connected", "Closed"} /\ wasConn},
                                            s \in S }
   \cup { Rec(c, "e1-badtag", s, -1, "") : c \in {x \in CT : HasBase(r, ph, x)}, s \in S }
   \cup { Rec(c, "e1-trunc", s, -1, h)   : c \in {x \in CT : HasBase(r, ph, x)}, s \in S, h \in TruncHows }
